@@ -47,7 +47,7 @@ ValueOK(S, k, c) ==
     \/ ~c.xnone /\ LenPartOK(S, k, c) /\ StrPartOK(S, k, c) /\ ItemLenOK(S, k, c) /\ ItemStrOK(S, k, c)
 
 \* an unguarded atom on an optional x would raise in Python when x is None: such scenarios are not generated
-WellGuarded(S) == S.opt => \A a \in ClassAtoms(S, Depth(S)) : a.g \in SameGuards
+WellGuarded(S) == S.opt => \A a \in FlattenTo(S.cls, Depth(S)) : a.g \in SameGuards
 
 SpecValid(S, c) == c.mut = "none" /\ c.k \in 1..Depth(S) /\ ValueOK(S, c.k, c)
 
